@@ -17,7 +17,7 @@ from ..refmodel import eems
 from . import modelsim_faults as mf
 
 ENGINE = "histsim_parse"
-BUDGET = {"C11": {"quick": 10000, "thorough": 250000}}
+BUDGET = {"C11": {"quick": 16000, "thorough": 250000}}
 
 # located faults of the built-in CSV configuration (library-selection and plug-in cells belong to C12 only)
 CELLS = [c for c in mf.MATRIX12 if not c.get("plugin") and not c.get("config") and c["kind"] != "unselected-library"]
